@@ -36,8 +36,19 @@ def run(ctx):
     rng = random.Random(ctx["seed"] * 1000003 + 9)
     n = 900 if ctx["tier"] == "quick" else 40000
     graphs = []
+    import docgen as D
     for _ in range(n):
-        if rng.random() < 0.5:
+        r = rng.random()
+        if r < 0.4:
+            # named types over several namespaces (same simple names), every (parent namespace, child namespace, already written)
+            # arrangement, each named type referenced several times through different containers; stored in any order; with or
+            # without an additional cycle through containers on which named types are met again every round
+            nodes = D.NameGraphGen(rng, logical=rng.random() < 0.3).build()
+            if rng.random() < 0.45:
+                nodes = D.with_cycle(rng, nodes)
+            if rng.random() < 0.6:
+                nodes = D.permute(rng, nodes)
+        elif r < 0.7:
             nodes = G.SchemaGen(rng, max_nodes=rng.choice([3, 8, 16]), max_depth=rng.choice([2, 4]),
                                 namespaces=rng.choice([("",), ("a", "a.b", "c"), ("", "a", "a.b")]), ref_prob=0.4).build()
         else:
@@ -49,6 +60,22 @@ def run(ctx):
     violations, diffs, samples, distinct = [], [], [], set()
     from collections import Counter
     dist = Counter()
+    # the regenerator ALONE (impl Serialize for SchemaMut; freeze only reaches it after the fingerprint pass has accepted the graph, so an
+    # inexpressible graph never gets that far through freeze): serde_json::to_string(&SchemaMut) on every graph, in a writer limited to
+    # 4 MiB; a graph with a cycle through unnamed nodes only must be an error (C09_unnamed_cycle_rejected), everything else = the model's text
+    jlines = ["tojson " + G.schema_sx(g) for g in graphs]
+    jimpl = C.run_parallel(C.AVRODRIVE, jlines)
+    jmodel = C.run_parallel(C.AVROMODEL, jlines)
+    for g, line, ri, rm in zip(graphs, jlines, jimpl, jmodel):
+        k = ri.split(" ")[0].strip("()")
+        dist["tojson/" + k] += 1
+        if k not in ("ok", "err"):
+            violations.append({"impl_case": line, "what": "rendering a built graph as JSON (serde_json::to_string(&SchemaMut)) did not return Ok or Err: "
+                               "%s (unbounded = more than 4 MiB written)" % ri[:60], "model": rm[:120]})
+        elif k == "ok" and G.graph_class(g)["unnamed_cycle"]:
+            violations.append({"impl_case": line, "what": "a graph with a cycle through unnamed types only was rendered as JSON by serde_json::to_string(&SchemaMut)"})
+        elif not C.same_outcome(ri, rm):
+            diffs.append({"impl_case": line, "model_case": line, "impl": ri[:500], "model": rm[:500]})
     re_lines, re_meta = [], []
     for g, line, ri, rm in zip(graphs, lines, impl, model):
         cls = G.graph_class(g)
@@ -115,9 +142,12 @@ def run(ctx):
             violations.append({"impl_case": line, "what": "logical types / node kinds of the re-parsed schema differ", "json": doc[:600]})
         if len(samples) < 5:
             samples.append({"json": doc[:300]})
-    return {"evaluations": len(lines) + len(re_lines), "distinct_nontrivial": len(distinct),
-            "rule": "node graphs built through the API: valid schemas with heavy sharing and three namespace arrangements, and arbitrary node "
+    return {"evaluations": len(lines) + len(jlines) + len(re_lines), "distinct_nontrivial": len(distinct),
+            "rule": "node graphs built through the API: name-rule graphs (colliding simple names over several namespaces incl. null-namespace records "
+                    "inside namespaces, named types referenced several times through different containers, nodes stored in any order, optional "
+                    "extra cycle through containers / records that passes named types every round), valid schemas with heavy sharing and three namespace arrangements, and arbitrary node "
                     "vectors (random keys: DAG sharing of unnamed nodes, cycles through named and unnamed nodes, logical annotations on any base "
-                    "type); freeze -> JSON -> parse: same fingerprint, same node kinds and logical types; unnamed-only cycles must fail; "
+                    "type); freeze -> JSON -> parse: same fingerprint, same node kinds and logical types; unnamed-only cycles must fail, through freeze and through "
+                    "the regenerator alone (serde_json::to_string(&SchemaMut), bounded writer, each call in a process whose death is a result); "
                     "model (SchemaJson.schema_json + fingerprint) vs crate text for text",
             "samples": samples, "violations": violations, "model_diffs": diffs, "distribution": dict(dist)}
